@@ -574,6 +574,10 @@ fill_yly_yd(
 		/* yd */
 		struct md_s md;
 
+		if (yd < 0) {
+			/* count from the end of the year */
+			yd += 366 + !(y % 4U);
+		}
 		if (wd_mask >> 1U &&
 		    !((wd_mask >> yd_get_wday(y, yd)) & 0b1U)) {
 			/* weekday is masked out */
